@@ -1112,4 +1112,251 @@ theorem phT_pending {n0 n1 a e0 : Nat} {b : Bus} {k : Nat} (h : PhT n0 n1 a e0 (
     · exact p1 s1
     · exact p0 s0
 
+/-! ## library vs foreign node under timed schedules -/
+
+theorem two_side0 {b : Bus} {n0 A : Nat} {f : Iso.Node} {in0 in1 : List Iso.Claim} (h : Two b n0 A f in0 in1) : Side b 0 n0 A in0 :=
+  ⟨h.2.1, h.2.2.1, h.2.2.2.2.2.2.1⟩
+
+/-- node 0's only device has the end-of-search address `e0`, or the one a claim-timer expiry at address `a` sets -/
+def EndIn0 (b : Bus) (a e0 : Nat) : Prop :=
+  ∃ x d, (b.node 0).kind = .lib x ∧ x.s.devs = [d] ∧ (d.endSource = e0 ∨ d.endSource = updEnd a)
+
+theorem step_poll_next (b : Bus) (i : Nat) : (step b (.poll i)).next = b.next := by
+  simp only [step]; split <;> rfl
+
+/-- a poll of either node or a clock advance, seen from the library-vs-foreign phase tables -/
+structure PresTwo (b b' : Bus) : Prop where
+  next : b'.next = b.next
+  two : ∀ n0 A f in0 in1, Two b n0 A f in0 in1 → Two b' n0 A f in0 in1
+  chg : Chg b → Chg b'
+  endIn : ∀ n0 a e0 f in0 in1, Two b n0 a f in0 in1 → EndIn0 b a e0 → EndIn0 b' a e0
+
+theorem presTwo_poll {b : Bus} {n0 A : Nat} {f : Iso.Node} {in0 in1 : List Iso.Claim} (h : Two b n0 A f in0 in1) (i : Nat) :
+    PresTwo b (step b (.poll i)) := by
+  have hn := h.1
+  by_cases hi : i < b.n
+  · rw [hn] at hi
+    rcases (by omega : i = 0 ∨ i = 1) with rfl | rfl
+    · have sp := side_poll_self (by omega) (two_side0 h)
+      refine ⟨step_poll_next b 0, fun n0' A' f' i0 i1 t => ?_, fun c => sp.2.2.1 c, fun n0' a e0 f' i0 i1 t e => ?_⟩
+      · have sp' := side_poll_self (b := b) (i := 0) (by omega) (two_side0 t)
+        obtain ⟨_, _, _, hk1, hst, h1, _, hb1⟩ := t
+        refine ⟨by rw [step_poll_n]; exact hn, sp'.1.1, sp'.1.2.1, ?_, hst, ?_, sp'.1.2.2, hb1⟩
+        · rw [sp.2.1 1 (by omega)]; exact hk1
+        · rw [sp.2.1 1 (by omega)]; exact h1
+      · obtain ⟨x, d, hk, hd, he⟩ := e
+        obtain ⟨x', d', hk', hd', he'⟩ := (side_poll_self (b := b) (i := 0) (by omega) (two_side0 t)).2.2.2 x d hk hd
+        refine ⟨x', d', hk', hd', ?_⟩
+        rcases he' with h | h
+        · rw [h]; exact he
+        · exact Or.inr h
+    · obtain ⟨_, _, _, hk1, hst, _⟩ := h
+      have hstep : step b (.poll 1) = act b 1 (.foreign f, []) (b.node 1).inbox := by
+        simp only [step, hn, show (1 : Nat) < 2 by omega, ↓reduceIte, hk1, kindPoll, Iso.start, hst, foreignOut, List.map_nil]
+      have h0 : (step b (.poll 1)).node 0 = b.node 0 := by rw [hstep]; exact act_quiet_other b 1 0 (by omega) _ _
+      have h1 : (step b (.poll 1)).node 1 = b.node 1 := by
+        rw [hstep, act_node_self]; cases hb : b.node 1; rw [hb] at hk1; simp only at hk1; subst hk1; rfl
+      refine ⟨step_poll_next b 1, fun n0' A' f' i0 i1 t => ?_, fun c => chgAt_congr h0 c, fun n0' a e0 f' i0 i1 t e => ?_⟩
+      · unfold Two at *; rw [h0, h1, step_poll_n]; exact t
+      · unfold EndIn0 at *; rw [h0]; exact e
+  · have : step b (.poll i) = b := by simp only [step, hi, ↓reduceIte]
+    rw [this]; exact ⟨rfl, fun _ _ _ _ _ t => t, fun c => c, fun _ _ _ _ _ _ _ e => e⟩
+
+theorem presTwo_adv (b : Bus) (dt : Nat) : PresTwo b (step b (.adv dt)) := by
+  refine ⟨rfl, fun n0 A f in0 in1 t => ?_, fun c => chgAt_adv dt c, fun n0 a e0 f in0 in1 _ e => ?_⟩
+  · have s0 := side_adv dt (two_side0 t)
+    obtain ⟨hn, _, _, hk1, hst, h1, _, hb1⟩ := t
+    exact ⟨hn, s0.1, s0.2.1, by simp only [step, hk1, kindAdv], hst, by simp only [step]; exact h1, s0.2.2, hb1⟩
+  · obtain ⟨x, d, hk, hd, he⟩ := e
+    exact ⟨{ x with s := { x.s with now := x.s.now + dt } }, d, by simp only [step, hk, kindAdv], hd, he⟩
+
+theorem phL_pres {n0 : Nat} {f0 : Iso.Node} {nx : Iso.Node → Nat} {k : Nat} {b b' : Bus} (p : PresTwo b b')
+    (h : PhL n0 f0 nx k b) : PhL n0 f0 nx k b' := by
+  obtain ⟨hnext, hk⟩ := h
+  refine ⟨by rw [p.next]; exact hnext, ?_⟩
+  match k, hk with
+  | 4, hk => exact p.two _ _ _ _ _ hk
+  | 3, hk => exact hk.elim (fun h => Or.inl (p.two _ _ _ _ _ h)) (fun h => Or.inr (p.two _ _ _ _ _ h))
+  | 2, hk => exact p.two _ _ _ _ _ hk
+  | 1, hk => exact hk.elim (fun h => Or.inl (p.two _ _ _ _ _ h)) (fun h => Or.inr (p.two _ _ _ _ _ h))
+  | 0, hk => exact p.two _ _ _ _ _ hk
+
+theorem phL_two {n0 : Nat} {f0 : Iso.Node} {nx : Iso.Node → Nat} {k : Nat} {b : Bus} (h : PhL n0 f0 nx k b) :
+    ∃ A f in0 in1, Two b n0 A f in0 in1 := by
+  obtain ⟨_, hk⟩ := h
+  match k, hk with
+  | 4, hk => exact ⟨_, _, _, _, hk⟩
+  | 3, hk => exact hk.elim (fun h => ⟨_, _, _, _, h⟩) (fun h => ⟨_, _, _, _, h⟩)
+  | 2, hk => exact ⟨_, _, _, _, hk⟩
+  | 1, hk => exact hk.elim (fun h => ⟨_, _, _, _, h⟩) (fun h => ⟨_, _, _, _, h⟩)
+  | 0, hk => exact ⟨_, _, _, _, hk⟩
+
+/-- lift a delivery-only progress step to the timed progress notion -/
+theorem progressS_of_progress {P : Nat → Bus → Prop} {k : Nat} {b : Bus} {i : Nat} (hp : P k b) (h : Progress P k b i) :
+    ProgressS P k b (.deliver i) := by
+  rcases h with ⟨hs, hidle⟩ | ⟨k', hk, hp', hi, hne⟩
+  · refine Or.inl ⟨?_, fun i' hi' hlt => ?_⟩
+    · show P k (step b (.deliver i)); rw [hs]; exact hp
+    · cases hi'; exact hidle hlt
+  · exact Or.inr ⟨k', i, rfl, hk, hp', hi, hne⟩
+
+theorem phL_stepS (n0 : Nat) (f0 : Iso.Node) (nx : Iso.Node → Nat) (hlt : n0 < f0.name) (hn1 : f0.name < 2^64)
+    (ha : f0.addr ≤ 251) (hnx : ∀ f, nx f < 256) (hne : nx f0 ≠ f0.addr) (k : Nat) (b : Bus) (h : PhL n0 f0 nx k b) (ev : Sch) :
+    ProgressS (PhL n0 f0 nx) k b ev := by
+  obtain ⟨A, f, in0, in1, t⟩ := phL_two h
+  cases ev with
+  | deliver i => exact progressS_of_progress h (phL_step n0 f0 nx hlt hn1 ha hnx hne k b h i)
+  | poll i => exact Or.inl ⟨phL_pres (presTwo_poll t i) h, fun _ hh => by cases hh⟩
+  | adv dt => exact Or.inl ⟨phL_pres (presTwo_adv b dt) h, fun _ hh => by cases hh⟩
+
+/-- timed phase table of the mirror case (library device with the higher NAME moves) -/
+def PhHt (n0 : Nat) (f0 : Iso.Node) (e0 : Nat) (nx : Iso.Node → Nat) (k : Nat) (b : Bus) : Prop :=
+  let a := f0.addr; let n1 := f0.name
+  b.next = nx ∧
+  match k with
+  | 4 => Two b n0 a f0 [(n1, a)] [(n0, a)] ∧ EndIn0 b a e0
+  | 3 => (∃ r, R a e0 r ∧ Two b n0 r f0 [] [(n0, a), (n0, r)] ∧ Chg b) ∨ (Two b n0 a f0 [(n1, a), (n1, a)] [] ∧ EndIn0 b a e0)
+  | 2 => ∃ r, R a e0 r ∧ Two b n0 r f0 [(n1, a)] [(n0, r)] ∧ Chg b
+  | 1 => ∃ r, R a e0 r ∧ (Two b n0 r f0 [] [(n0, r)] ∨ Two b n0 r f0 [(n1, a)] []) ∧ Chg b
+  | 0 => ∃ r, R a e0 r ∧ Two b n0 r f0 [] [] ∧ Chg b
+  | _ => False
+
+theorem phHt_pres {n0 : Nat} {f0 : Iso.Node} {e0 : Nat} {nx : Iso.Node → Nat} {k : Nat} {b b' : Bus} (p : PresTwo b b')
+    (h : PhHt n0 f0 e0 nx k b) : PhHt n0 f0 e0 nx k b' := by
+  obtain ⟨hnext, hk⟩ := h
+  refine ⟨by rw [p.next]; exact hnext, ?_⟩
+  match k, hk with
+  | 4, ⟨t, e⟩ => exact ⟨p.two _ _ _ _ _ t, p.endIn _ _ _ _ _ _ t e⟩
+  | 3, hk =>
+    rcases hk with ⟨r, hr, t, c⟩ | ⟨t, e⟩
+    · exact Or.inl ⟨r, hr, p.two _ _ _ _ _ t, p.chg c⟩
+    · exact Or.inr ⟨p.two _ _ _ _ _ t, p.endIn _ _ _ _ _ _ t e⟩
+  | 2, ⟨r, hr, t, c⟩ => exact ⟨r, hr, p.two _ _ _ _ _ t, p.chg c⟩
+  | 1, ⟨r, hr, ht, c⟩ => exact ⟨r, hr, ht.elim (fun t => Or.inl (p.two _ _ _ _ _ t)) (fun t => Or.inr (p.two _ _ _ _ _ t)), p.chg c⟩
+  | 0, ⟨r, hr, t, c⟩ => exact ⟨r, hr, p.two _ _ _ _ _ t, p.chg c⟩
+
+theorem phHt_two {n0 : Nat} {f0 : Iso.Node} {e0 : Nat} {nx : Iso.Node → Nat} {k : Nat} {b : Bus} (h : PhHt n0 f0 e0 nx k b) :
+    ∃ A f in0 in1, Two b n0 A f in0 in1 := by
+  obtain ⟨_, hk⟩ := h
+  match k, hk with
+  | 4, ⟨t, _⟩ => exact ⟨_, _, _, _, t⟩
+  | 3, hk =>
+    rcases hk with ⟨r, _, t, _⟩ | ⟨t, _⟩
+    · exact ⟨_, _, _, _, t⟩
+    · exact ⟨_, _, _, _, t⟩
+  | 2, ⟨r, _, t, _⟩ => exact ⟨_, _, _, _, t⟩
+  | 1, ⟨r, _, ht, _⟩ => exact ht.elim (fun t => ⟨_, _, _, _, t⟩) (fun t => ⟨_, _, _, _, t⟩)
+  | 0, ⟨r, _, t, _⟩ => exact ⟨_, _, _, _, t⟩
+
+theorem phHt_step (n0 : Nat) (f0 : Iso.Node) (e0 : Nat) (nx : Iso.Node → Nat) (hgt : f0.name < n0) (hn1 : f0.name < 2^64)
+    (ha : f0.addr ≤ 251) (hnx : ∀ f, nx f < 256) (k : Nat) (b : Bus) (h : PhHt n0 f0 e0 nx k b) (i : Nat) :
+    Progress (PhHt n0 f0 e0 nx) k b i := by
+  obtain ⟨hnext, hk⟩ := h
+  have rne : ∀ {r}, R f0.addr e0 r → r ≠ f0.addr := by
+    intro r hr; rcases hr with h | h <;> rw [h] <;> exact nxt_ne _ _ ha
+  have rOf : ∀ {d : Dev}, (d.endSource = e0 ∨ d.endSource = updEnd f0.addr) → R f0.addr e0 (nxt f0.addr d.endSource) := by
+    intro d hd; rcases hd with h | h
+    · left; rw [h]
+    · right; rw [h]
+  have hn2 : ∀ {A f in0 in1}, Two b n0 A f in0 in1 → b.n = 2 := fun h => h.1
+  have nxt' : (step b (.deliver i)).next = nx := by rw [step_deliver_next]; exact hnext
+  have idle0 : ∀ {A f in1}, Two b n0 A f [] in1 → Progress (PhHt n0 f0 e0 nx) k b 0 :=
+    fun h => Or.inl ⟨two_idle0 h, fun _ => by rw [two_inbox0 h]; rfl⟩
+  have idle1 : ∀ {A f in0}, Two b n0 A f in0 [] → Progress (PhHt n0 f0 e0 nx) k b 1 :=
+    fun h => Or.inl ⟨two_idle1 h, fun _ => by rw [two_inbox1 h]; rfl⟩
+  have far : ∀ {A f in0 in1}, Two b n0 A f in0 in1 → 2 ≤ i → Progress (PhHt n0 f0 e0 nx) k b i :=
+    fun h hi => Or.inl ⟨step_far b i (by rw [hn2 h]; omega), fun hh => by rw [hn2 h] at hh; omega⟩
+  have hnxb : b.next f0 < 256 := by rw [hnext]; exact hnx f0
+  match k, hk with
+  | 4, ⟨hk, ⟨x, d, hkx, hd, hde⟩⟩ =>
+    rcases Nat.lt_or_ge i 2 with hi | hi
+    · rcases (by omega : i = 0 ∨ i = 1) with rfl | rfl
+      · have t := two_deliver0_move hk hkx hd ha rfl hgt
+        exact Or.inr ⟨3, rfl, ⟨nxt', Or.inl ⟨_, rOf hde, by simpa using t.1, t.2⟩⟩, by rw [hn2 hk]; omega, by rw [two_inbox0 hk]; simp⟩
+      · refine Or.inr ⟨3, rfl, ⟨nxt', Or.inr ⟨?_, ⟨x, d, by rw [kind0_step1 hk]; exact hkx, hd, hde⟩⟩⟩, by rw [hn2 hk]; omega,
+          by rw [two_inbox1 hk]; simp⟩
+        simpa using (two_deliver1 hk hn1 (by omega) hnxb).2.1 rfl ha hgt
+    · exact far hk hi
+  | 3, hk =>
+    rcases hk with ⟨r, hr, hk, hc⟩ | ⟨hk, ⟨x, d, hkx, hd, hde⟩⟩
+    · rcases Nat.lt_or_ge i 2 with hi | hi
+      · rcases (by omega : i = 0 ∨ i = 1) with rfl | rfl
+        · exact idle0 hk
+        · refine Or.inr ⟨2, rfl, ⟨nxt', r, hr, ?_, chg_step1 hk hc⟩, by rw [hn2 hk]; omega, by rw [two_inbox1 hk]; simp⟩
+          simpa using (two_deliver1 hk hn1 (by omega) hnxb).2.1 rfl ha hgt
+      · exact far hk hi
+    · rcases Nat.lt_or_ge i 2 with hi | hi
+      · rcases (by omega : i = 0 ∨ i = 1) with rfl | rfl
+        · have t := two_deliver0_move hk hkx hd ha rfl hgt
+          exact Or.inr ⟨2, rfl, ⟨nxt', _, rOf hde, by simpa using t.1, t.2⟩, by rw [hn2 hk]; omega, by rw [two_inbox0 hk]; simp⟩
+        · exact idle1 hk
+      · exact far hk hi
+  | 2, ⟨r, hr, hk, hc⟩ =>
+    rcases Nat.lt_or_ge i 2 with hi | hi
+    · rcases (by omega : i = 0 ∨ i = 1) with rfl | rfl
+      · refine Or.inr ⟨1, rfl, ⟨nxt', r, hr, Or.inl ?_, chg_step0 hk hc⟩, by rw [hn2 hk]; omega, by rw [two_inbox0 hk]; simp⟩
+        exact (two_deliver0 hk).1 (fun hh => rne hr hh.symm)
+      · refine Or.inr ⟨1, rfl, ⟨nxt', r, hr, Or.inr ?_, chg_step1 hk hc⟩, by rw [hn2 hk]; omega, by rw [two_inbox1 hk]; simp⟩
+        exact (two_deliver1 hk hn1 (by omega) hnxb).1 (fun hh => rne hr hh.1)
+    · exact far hk hi
+  | 1, ⟨r, hr, ht, hc⟩ =>
+    rcases ht with hk | hk
+    · rcases Nat.lt_or_ge i 2 with hi | hi
+      · rcases (by omega : i = 0 ∨ i = 1) with rfl | rfl
+        · exact idle0 hk
+        · refine Or.inr ⟨0, rfl, ⟨nxt', r, hr, ?_, chg_step1 hk hc⟩, by rw [hn2 hk]; omega, by rw [two_inbox1 hk]; simp⟩
+          exact (two_deliver1 hk hn1 (by omega) hnxb).1 (fun hh => rne hr hh.1)
+      · exact far hk hi
+    · rcases Nat.lt_or_ge i 2 with hi | hi
+      · rcases (by omega : i = 0 ∨ i = 1) with rfl | rfl
+        · refine Or.inr ⟨0, rfl, ⟨nxt', r, hr, ?_, chg_step0 hk hc⟩, by rw [hn2 hk]; omega, by rw [two_inbox0 hk]; simp⟩
+          exact (two_deliver0 hk).1 (fun hh => rne hr hh.symm)
+        · exact idle1 hk
+      · exact far hk hi
+  | 0, ⟨r, hr, hk, _⟩ =>
+    rcases Nat.lt_or_ge i 2 with hi | hi
+    · rcases (by omega : i = 0 ∨ i = 1) with rfl | rfl
+      · exact idle0 hk
+      · exact idle1 hk
+    · exact far hk hi
+
+theorem phHt_stepS (n0 : Nat) (f0 : Iso.Node) (e0 : Nat) (nx : Iso.Node → Nat) (hgt : f0.name < n0) (hn1 : f0.name < 2^64)
+    (ha : f0.addr ≤ 251) (hnx : ∀ f, nx f < 256) (k : Nat) (b : Bus) (h : PhHt n0 f0 e0 nx k b) (ev : Sch) :
+    ProgressS (PhHt n0 f0 e0 nx) k b ev := by
+  obtain ⟨A, f, in0, in1, t⟩ := phHt_two h
+  cases ev with
+  | deliver i => exact progressS_of_progress h (phHt_step n0 f0 e0 nx hgt hn1 ha hnx k b h i)
+  | poll i => exact Or.inl ⟨phHt_pres (presTwo_poll t i) h, fun _ hh => by cases hh⟩
+  | adv dt => exact Or.inl ⟨phHt_pres (presTwo_adv b dt) h, fun _ hh => by cases hh⟩
+
+theorem phHt_zero {n0 : Nat} {f0 : Iso.Node} {e0 : Nat} {nx : Iso.Node → Nat} {b : Bus} (ha : f0.addr ≤ 251)
+    (h : PhHt n0 f0 e0 nx 0 b) :
+    quiescent b ∧ (∃ r, R f0.addr e0 r ∧ r ≠ f0.addr ∧ claimants (b.node 0).kind = [(n0, r)]) ∧
+    claimants (b.node 1).kind = [(f0.name, f0.addr)] ∧ Chg b := by
+  obtain ⟨_, r, hr, ⟨hn, ⟨x, hk, hx⟩, h0, hk1, hst, h1, _⟩, hc⟩ := h
+  refine ⟨fun i hi => ?_, ⟨r, hr, ?_, ?_⟩, ?_, hc⟩
+  · rw [hn] at hi
+    rcases (by omega : i = 0 ∨ i = 1) with rfl | rfl
+    · rw [h0]; rfl
+    · rw [h1]; rfl
+  · rcases hr with h | h <;> rw [h] <;> exact nxt_ne _ _ ha
+  · rw [hk]; simp only [claimants, hx.2.1, ↓reduceIte]; exact hx.2.2
+  · rw [hk1]; simp only [claimants]; rw [if_pos hst]
+
+theorem phHt_pending {n0 : Nat} {f0 : Iso.Node} {e0 : Nat} {nx : Iso.Node → Nat} {b : Bus} {k : Nat}
+    (h : PhHt n0 f0 e0 nx (k + 1) b) : ∃ i, i < b.n ∧ (b.node i).inbox ≠ [] := by
+  obtain ⟨_, hk⟩ := h
+  have p0 : ∀ {A f c r in1}, Two b n0 A f (c :: r) in1 → ∃ i, i < b.n ∧ (b.node i).inbox ≠ [] :=
+    fun h => ⟨0, by rw [h.1]; omega, by rw [two_inbox0 h]; simp⟩
+  have p1 : ∀ {A f c r in0}, Two b n0 A f in0 (c :: r) → ∃ i, i < b.n ∧ (b.node i).inbox ≠ [] :=
+    fun h => ⟨1, by rw [h.1]; omega, by rw [two_inbox1 h]; simp⟩
+  match k, hk with
+  | 3, hk => exact p0 hk.1
+  | 2, hk =>
+    rcases hk with ⟨r, _, t, _⟩ | ⟨t, _⟩
+    · exact p1 t
+    · exact p0 t
+  | 1, ⟨r, _, t, _⟩ => exact p0 t
+  | 0, ⟨r, _, ht, _⟩ => exact ht.elim (fun t => p1 t) (fun t => p0 t)
+
 end N2k.Bus
